@@ -12,8 +12,10 @@ import (
 	"io"
 	"log/slog"
 	"net/http"
+	"net/url"
 	"regexp"
 	"strconv"
+	"strings"
 	"sync"
 	"time"
 )
@@ -324,7 +326,13 @@ func (h *HttpServer) handleIntrospectToken(w http.ResponseWriter, r *http.Reques
 		if errors.As(err, &unavailable) {
 			retryAfter = unavailable.retryAfterSeconds()
 		}
-		slog.Warn("introspection unavailable", "principal", caller, "token_digest", digest, "err", err)
+		// The resolver's error text is the one thing on this route the
+		// framework does not author, and a wrapped lookup or URL error
+		// commonly quotes what was looked up. The credential is taken out
+		// of it before it reaches the log, which otherwise only ever sees
+		// the digest.
+		slog.Warn("introspection unavailable", "principal", caller, "token_digest", digest,
+			"err", redactCredential(err.Error(), credential))
 		w.Header().Set("Retry-After", strconv.Itoa(retryAfter))
 		writeIntrospectRefusal(w, http.StatusServiceUnavailable, "unavailable")
 		return
@@ -366,6 +374,19 @@ func (h *HttpServer) handleIntrospectToken(w http.ResponseWriter, r *http.Reques
 // writeIntrospectRefusal writes a refusal carrying no detail about why. The
 // body is a function of the error code alone, so two refusals of the same kind
 // are byte-identical.
+// redactCredential removes credential from text in the spellings an error
+// wrapper commonly gives it: verbatim, Go-quoted (%q) and URL-escaped.
+func redactCredential(text, credential string) string {
+	if credential == "" {
+		return text
+	}
+	quoted := strconv.Quote(credential)
+	for _, form := range []string{credential, quoted[1 : len(quoted)-1], url.QueryEscape(credential), url.PathEscape(credential)} {
+		text = strings.ReplaceAll(text, form, "[credential]")
+	}
+	return text
+}
+
 func writeIntrospectRefusal(w http.ResponseWriter, status int, code string) {
 	w.Header().Set("Content-Type", "application/json")
 	w.Header().Set("Cache-Control", "no-store")
